@@ -233,15 +233,29 @@ def run(tier):
         doc = docdrv.doc_from_state(st, drnd, place(st['top'], drnd))
         for j, (so, co, tail, style) in enumerate(legs_for(doc, drnd, nlegs)):
             jobs.append(('t%05d.%d' % (n, j), 'CtlDoc', doc, sd * 100003 + n * 7 + j, so, co, tail, style))
-    # every small document (one entry b/c, up to three one-statement sub-blocks B/C [W], at most one I / M [N] comment)
-    sweep, r = sweep_docs(wd, 'CtlDoc_sweep.cfg' if tier == 'quick' else 'CtlDoc_sweep2.cfg')
-    rep.add_tlc(r, 'CtlDoc_sweep')
-    log('C03: %d documents from the exhaustive sweep' % len(sweep))
-    for n, st in enumerate(sweep):
-        doc = docdrv.doc_from_state(st, random.Random(n), 32768, plain=True)
-        for j, co in enumerate(([], ['-k'])):
-            if j == 0 or tier != 'quick' or n % 4 == sd % 4:
-                jobs.append(('s%05d.%d' % (n, j), 'sweep', doc, n, [], co, bool(n % 2), 'dec'))
+    # every small document: (1) one entry b/c, up to three one-statement sub-blocks B/C [W], at most one I / M [N]
+    # comment; (2) four [five] one-statement sub-blocks B/C and one M comment (quick: only M ranges that have a
+    # neighbour on both sides - the ranges at the edges of an entry are in (1) for up to three sub-blocks)
+    def inner(st):
+        m = st['notes'][0]
+        return m['a'] > 0 and m['e'] < st['top']
+    if tier == 'quick':
+        sweeps = (('CtlDoc_sweep.cfg', lambda st: True), ('CtlDoc_sweep3.cfg', lambda st: len(st['subs']) == 4 and st['notes'] and inner(st)))
+    else:
+        sweeps = (('CtlDoc_sweep2.cfg', lambda st: True), ('CtlDoc_sweep3.cfg', lambda st: len(st['subs']) == 4 and st['notes']),
+                  ('CtlDoc_sweep4.cfg', lambda st: len(st['subs']) == 5 and st['notes']))
+    for si, (cfg, keep) in enumerate(sweeps):
+        sweep, r = sweep_docs(wd, cfg)
+        sweep = [st for st in sweep if keep(st)]
+        rep.add_tlc(r, cfg[:-4])
+        log('C03: %d documents from the exhaustive sweep %s (%.0fs)' % (len(sweep), cfg, rep.timer.s()))
+        if len(sweep) < 100:
+            raise MachineryError('C03: sweep %s yields only %d documents' % (cfg, len(sweep)))
+        for n, st in enumerate(sweep):
+            doc = docdrv.doc_from_state(st, random.Random(n), 32768, plain=True)
+            for j, co in enumerate(([], ['-k'])):
+                if j == 0 or (tier != 'quick' and si < 2) or n % 4 == sd % 4:
+                    jobs.append(('s%d%05d.%d' % (si, n, j), 'sweep', doc, n, [], co, bool(n % 2), 'dec'))
     for n in range(nrand):
         dsd = sd * 1000003 + n
         doc = docdrv.random_doc(dsd)
